@@ -90,7 +90,11 @@ class Ctx:
         if z3.is_true(z):
             return
         self.pc.append(z)
-        self.solver.add(z)
+        # the branch-feasibility solver only sees the cheap (linear) part of the path condition: treating an
+        # infeasible branch as feasible is sound (its VCs hold vacuously under the full pc), and keeps
+        # nonlinear axioms out of the hundreds of feasibility queries
+        if not _looks_nonlinear(z, 3000):
+            self.solver.add(z)
 
     def feasible(self, z=None):
         import time
